@@ -82,6 +82,18 @@ def is_negative_one_lexpr(lexpr):
     )
 
 
+def _droppable(literal, other):
+    """Check that dropping a zero/unit literal keeps the type of the operation (in C, 1.0 * i is not i)."""
+    return isinstance(literal, LiteralInt) or other.dtype not in (DataType.INT, DataType.BOOL)
+
+
+def _zero(a, b):
+    """Zero literal of the type an operation on a and b has."""
+    if {a.dtype, b.dtype} & {DataType.REAL, DataType.SCALAR}:
+        return LiteralFloat(0.0)
+    return LiteralInt(0)
+
+
 def float_product(factors):
     """Build product of float factors.
 
@@ -161,9 +173,9 @@ class LExpr(LNode):
     def __add__(self, other):
         """Add."""
         other = as_lexpr(other)
-        if is_zero_lexpr(self):
+        if is_zero_lexpr(self) and _droppable(self, other):
             return other
-        if is_zero_lexpr(other):
+        if is_zero_lexpr(other) and _droppable(other, self):
             return self
         if isinstance(other, Neg):
             return Sub(self, other.arg)
@@ -172,9 +184,9 @@ class LExpr(LNode):
     def __radd__(self, other):
         """Add."""
         other = as_lexpr(other)
-        if is_zero_lexpr(self):
+        if is_zero_lexpr(self) and _droppable(self, other):
             return other
-        if is_zero_lexpr(other):
+        if is_zero_lexpr(other) and _droppable(other, self):
             return self
         if isinstance(self, Neg):
             return Sub(other, self.arg)
@@ -183,9 +195,9 @@ class LExpr(LNode):
     def __sub__(self, other):
         """Subtract."""
         other = as_lexpr(other)
-        if is_zero_lexpr(self):
+        if is_zero_lexpr(self) and _droppable(self, other):
             return -other
-        if is_zero_lexpr(other):
+        if is_zero_lexpr(other) and _droppable(other, self):
             return self
         if isinstance(other, Neg):
             return Add(self, other.arg)
@@ -196,9 +208,9 @@ class LExpr(LNode):
     def __rsub__(self, other):
         """Subtract."""
         other = as_lexpr(other)
-        if is_zero_lexpr(self):
+        if is_zero_lexpr(self) and _droppable(self, other):
             return other
-        if is_zero_lexpr(other):
+        if is_zero_lexpr(other) and _droppable(other, self):
             return -self
         if isinstance(self, Neg):
             return Add(other, self.arg)
@@ -207,17 +219,15 @@ class LExpr(LNode):
     def __mul__(self, other):
         """Multiply."""
         other = as_lexpr(other)
-        if is_zero_lexpr(self):
-            return self
-        if is_zero_lexpr(other):
+        if is_zero_lexpr(self) or is_zero_lexpr(other):
+            return _zero(self, other)
+        if is_one_lexpr(self) and _droppable(self, other):
             return other
-        if is_one_lexpr(self):
-            return other
-        if is_one_lexpr(other):
+        if is_one_lexpr(other) and _droppable(other, self):
             return self
-        if is_negative_one_lexpr(other):
+        if is_negative_one_lexpr(other) and _droppable(other, self):
             return Neg(self)
-        if is_negative_one_lexpr(self):
+        if is_negative_one_lexpr(self) and _droppable(self, other):
             return Neg(other)
         if isinstance(self, LiteralInt) and isinstance(other, LiteralInt):
             return LiteralInt(self.value * other.value)
@@ -226,17 +236,15 @@ class LExpr(LNode):
     def __rmul__(self, other):
         """Multiply."""
         other = as_lexpr(other)
-        if is_zero_lexpr(self):
-            return self
-        if is_zero_lexpr(other):
+        if is_zero_lexpr(self) or is_zero_lexpr(other):
+            return _zero(self, other)
+        if is_one_lexpr(self) and _droppable(self, other):
             return other
-        if is_one_lexpr(self):
-            return other
-        if is_one_lexpr(other):
+        if is_one_lexpr(other) and _droppable(other, self):
             return self
-        if is_negative_one_lexpr(other):
+        if is_negative_one_lexpr(other) and _droppable(other, self):
             return Neg(self)
-        if is_negative_one_lexpr(self):
+        if is_negative_one_lexpr(self) and _droppable(self, other):
             return Neg(other)
         return Mul(other, self)
 
@@ -246,7 +254,7 @@ class LExpr(LNode):
         if is_zero_lexpr(other):
             raise ValueError("Division by zero!")
         if is_zero_lexpr(self):
-            return self
+            return _zero(self, other)
         return Div(self, other)
 
     def __rdiv__(self, other):
@@ -255,7 +263,7 @@ class LExpr(LNode):
         if is_zero_lexpr(self):
             raise ValueError("Division by zero!")
         if is_zero_lexpr(other):
-            return other
+            return _zero(self, other)
         return Div(other, self)
 
     # TODO: Error check types?
